@@ -75,7 +75,7 @@ func (g *wasmGen) add(scn, fn, cls string, probe bool, args []JArg, fill func(*w
 	g.evs = append(g.evs, e)
 }
 
-var wasmDigits = []string{"6", "8", "9", "10", "7", "x"}
+var wasmDigits = []string{"6", "8", "9", "10", "6", "8", "9", "10", "7", "x", "08", "+8", "009", "010", "+10", " 8", "8 ", "8.0", "-8", ""}
 var wasmAlgs = []string{"SHA1", "SHA256", "SHA512", "SHA256", "SHA512", "sha1", "sha256", "sha512", "Sha512", "MD5"}
 
 func (g *wasmGen) key() ([]byte, string) {
@@ -269,6 +269,25 @@ func wasmScenarios(c *ctx) []wasmEvent {
 			}
 		}
 	}
+	// codes with five to seven leading zeros (see zeroRich), through generation and validation
+	for i, z := range zeroRich {
+		if z.D == 7 {
+			continue // not a spelling the binding knows
+		}
+		d, a := fmt.Sprint(z.D), []string{"SHA1", "SHA256", "SHA512"}[z.Alg]
+		zc := z.Ctr
+		g.add(fmt.Sprintf("C20/zeros/gh/%d", i), "generateHOTP", "wellformed", false, []JArg{jStr(b32(zeroRichKey)), jNum(zc), jStr(d), jStr(a)},
+			func(e *wasmEvent) { e.Orc = allAlgWindow(zeroRichKey, zc, 0) })
+		ts := zc*30 + uint64(i%30)
+		g.add(fmt.Sprintf("C20/zeros/gt/%d", i), "generateTOTP", "wellformed", false, []JArg{jStr(b32(zeroRichKey)), jNum(ts), jStr(d), jStr(a), jNum(30)},
+			func(e *wasmEvent) {
+				e.Step0 = W64(zc)
+				e.Orc = allAlgWindow(zeroRichKey, zc, 0)
+			})
+		g.add(fmt.Sprintf("C20/zeros/vh/%d", i), "validateHOTP", "wellformed", false,
+			[]JArg{jStr(b32(zeroRichKey)), jStr(refHOTP(zeroRichKey, zc, z.D, z.Alg)), jNum(zc), jStr(d), jStr(a), jNum(1)},
+			func(e *wasmEvent) { e.Orc = allAlgWindow(zeroRichKey, zc, 1+margin) })
+	}
 	// malformed calls: every argument position x every JS type, too few / too many arguments; each followed by a probe
 	bads := []JArg{jOther("undefined"), jOther("null"), jOther("nan"), jNeg("-1"), jNeg("-7"), jHuge("1e300"), jOther("inf"), jOther("boolean"), jOther("object"), jOther("array"), jStr(""), jOther("function")}
 	id := 0
@@ -291,6 +310,18 @@ func wasmScenarios(c *ctx) []wasmEvent {
 				if id%3 == 0 {
 					g.randomGood(fmt.Sprintf("C20/probe/%d", id), true)
 				}
+			}
+		}
+		// text that looks like a number is still not a number
+		for pos := 0; pos < fnArity[fn]; pos++ {
+			if g.goodArgs(fn)[pos].T != "number" {
+				continue
+			}
+			for _, txt := range []string{"5", "0", "30", "1e3", " 7", "0x10"} {
+				args := g.goodArgs(fn)
+				args[pos] = jStr(txt)
+				id++
+				g.add(fmt.Sprintf("C20/bad/%s/%d/numtext/%d", fn, pos, id), fn, "malformed", false, args, nil)
 			}
 		}
 		for _, n := range []int{0, 1, fnArity[fn] - 1, fnArity[fn] + 1, fnArity[fn] + 3} {
